@@ -1,79 +1,224 @@
 (* C02 -- Keyed, join and set operations follow Spark's multiset semantics.
    Only statements, each closed by [exact] of a lemma from PV.Proofs.Keyed*.
 
-   The model (PV.Model.Keyed) transcribes what rdd.py does: a defaultdict loop for groupByKey, dict lookups
-   for the join family, Python sets for cogroup / distinct / intersection.  The specs (PV.Model.KeyedSpec) are
-   list comprehensions over the flattened inputs.  [Permutation] is multiset equality.  Every theorem holds
-   for ALL lists, all key and value types; the only premise is [decides_eq keqb]: the boolean key equality
-   handed to the model decides equality (Python's == on a key domain that does not mix True/1/1.0). *)
-From Coq Require Import ZArith List Bool Permutation.
-Require Import PV.Model.Keyed PV.Model.KeyedSpec PV.Proofs.Keyed.
+   Model (PV.Model.Keyed): what rdd.py does today -- a defaultdict loop for groupByKey, dict lookups on grouped
+   values for the join family (RDD.join included, since the repair), Python sets for cogroup / distinct /
+   intersection, one dict per partition merged on the driver for aggregateByKey / countByKey, a partition-wise
+   filter for subtract, and Context.parallelize (regenerated kernel) for the partitioning of every result.
+   [rdd_X lp rp np] is the list of partitions of the RDD returned by X on inputs partitioned as [lp], [rp];
+   [concat] of it is what collect() returns.
+   Specs (PV.Model.KeyedSpec): list comprehensions over the flattened inputs [concat lp], [concat rp].
+   [Permutation] is multiset equality; where the code fixes more than the multiset (order of keys, of values
+   under a key) the theorem is an equation.
+
+   Quantification: ALL key / value types, ALL lists, ALL partitionings of both sides (they appear only through
+   [concat]), ALL numPartitions (absent, <= 1, larger than the data).  Only premise: [decides_eq keqb] -- the
+   boolean key equality handed to the model decides equality (Python's == on a key domain that does not mix
+   True/1/1.0); it is proved for the instance used in the correspondence run ([C02_run_keys_decide_eq]). *)
+From Coq Require Import ZArith List Bool Permutation Sorted.
+Require Import PV.Model.Keyed PV.Model.KeyedSpec.
+Require Import PV.Proofs.Keyed PV.Proofs.KeyedAgg PV.Proofs.KeyedRdd PV.Proofs.KeyedPv.
 Import ListNotations.
 
-(* ---- groupByKey: one entry per distinct key, keys in order of first occurrence, and the values grouped
-   under a key are exactly the values of that key in input order *)
-Theorem C02_groupByKey_exact : forall K (keqb : K -> K -> bool), decides_eq keqb ->
-  forall V (xs : list (K * V)),
-  group_by_key keqb xs = map (fun k => (k, values keqb k xs)) (firstkeys keqb (map fst xs)).
-Proof. exact @group_by_key_closed. Qed.
-Theorem C02_firstkeys_NoDup : forall K (keqb : K -> K -> bool), decides_eq keqb ->
-  forall ks : list K, NoDup (firstkeys keqb ks).
-Proof. exact @firstkeys_NoDup. Qed.
-Theorem C02_firstkeys_In : forall K (keqb : K -> K -> bool), decides_eq keqb ->
-  forall (ks : list K) k, In k (firstkeys keqb ks) <-> In k ks.
-Proof. exact @firstkeys_In. Qed.
-(* nothing is lost or invented: ungrouping gives back the input as a multiset *)
+(* ================= the property, per method, end to end (partitioned inputs -> collect()) ================= *)
+
+(* groupByKey: one entry per distinct key (first-occurrence order); the values grouped under a key are exactly
+   the values of that key in input order *)
+Theorem C02_groupByKey : forall K (keqb : K -> K -> bool), decides_eq keqb ->
+  forall V (lp : list (list (K * V))) np,
+  concat (rdd_group_by_key keqb lp np) = group_spec keqb (concat lp).
+Proof. exact @rdd_group_by_key_spec. Qed.
+(* ... and nothing is lost or invented: ungrouping gives back the input as a multiset *)
 Theorem C02_groupByKey_multiset : forall K (keqb : K -> K -> bool), decides_eq keqb ->
   forall V (xs : list (K * V)),
   Permutation (flat_map (fun kv => map (fun v => (fst kv, v)) (snd kv)) (group_by_key keqb xs)) xs.
 Proof. exact @group_by_key_perm. Qed.
+Theorem C02_keys_NoDup : forall K (keqb : K -> K -> bool), decides_eq keqb ->
+  forall ks : list K, NoDup (firstkeys keqb ks).
+Proof. exact @firstkeys_NoDup. Qed.
+Theorem C02_keys_In : forall K (keqb : K -> K -> bool), decides_eq keqb ->
+  forall (ks : list K) k, In k (firstkeys keqb ks) <-> In k ks.
+Proof. exact @firstkeys_In. Qed.
 
-(* ---- the join family: every combination of matching-key values appears once (duplicate keys multiply);
+(* reduceByKey: per key, functools.reduce over the values of that key in input order (never the empty reduce);
+   for a commutative and associative function the order of the values is immaterial *)
+Theorem C02_reduceByKey : forall K (keqb : K -> K -> bool), decides_eq keqb ->
+  forall V (f : V -> V -> V) (lp : list (list (K * V))) np,
+  concat (rdd_reduce_by_key keqb f lp np)
+  = map (fun k => (k, reduce1 f (values keqb k (concat lp)))) (firstkeys keqb (map fst (concat lp))).
+Proof. exact @rdd_reduce_by_key_spec. Qed.
+Theorem C02_reduceByKey_defined : forall K (keqb : K -> K -> bool), decides_eq keqb ->
+  forall V (f : V -> V -> V) (xs : list (K * V)) k r, In (k, r) (reduce_by_key keqb f xs) -> r <> None.
+Proof. exact @reduce_by_key_defined. Qed.
+Theorem C02_reduce_order_irrelevant : forall V (f : V -> V -> V),
+  (forall a b c, f (f a b) c = f a (f b c)) -> (forall a b, f a b = f b a) ->
+  forall l l', Permutation l l' -> reduce1 f l = reduce1 f l'.
+Proof. exact @reduce1_perm. Qed.
+
+(* aggregateByKey / foldByKey / countByKey: each partition is folded on its own from a copy of the zero value
+   and the per-partition dicts are merged; for arguments that satisfy Spark's contract the result is, per key,
+   the fold over that key's values in input order *)
+Theorem C02_aggregateByKey : forall K (keqb : K -> K -> bool), decides_eq keqb ->
+  forall V A (z : A) (s : A -> V -> A) (c : A -> A -> A) (lp : list (list (K * V))),
+  agg_hom z s c -> concat (rdd_aggregate_by_key keqb z s c lp) = fold_per_key keqb s z (concat lp).
+Proof. exact @rdd_aggregate_by_key_spec. Qed.
+Theorem C02_foldByKey : forall K (keqb : K -> K -> bool), decides_eq keqb ->
+  forall V (z : V) (op : V -> V -> V) (lp : list (list (K * V))),
+  (forall a b c, op (op a b) c = op a (op b c)) -> (forall a, op z a = a) -> (forall a, op a z = a) ->
+  fold_by_key keqb z op lp = fold_per_key keqb op z (concat lp).
+Proof. exact @fold_by_key_closed. Qed.
+Theorem C02_countByKey : forall K (keqb : K -> K -> bool), decides_eq keqb ->
+  forall V (lp : list (list (K * V))), count_by_key keqb lp = count_spec keqb (concat lp).
+Proof. exact @count_by_key_closed. Qed.
+
+(* cogroup: one entry per key of either side, both value lists in input order *)
+Theorem C02_cogroup : forall K (keqb : K -> K -> bool), decides_eq keqb ->
+  forall V W (lp : list (list (K * V))) (rp : list (list (K * W))),
+  concat (rdd_cogroup keqb lp rp) = cogroup_spec keqb (concat lp) (concat rp).
+Proof. exact @rdd_cogroup_spec. Qed.
+
+(* the join family: every combination of matching-key values appears once (duplicate keys multiply);
    unmatched sides appear paired with None only in the outer variants *)
 Theorem C02_join : forall K (keqb : K -> K -> bool), decides_eq keqb ->
-  forall V W (xs : list (K * V)) (ys : list (K * W)),
-  Permutation (join keqb xs ys) (join_spec keqb xs ys).
-Proof. exact @join_perm. Qed.
+  forall V W (lp : list (list (K * V))) (rp : list (list (K * W))) np,
+  Permutation (concat (rdd_join keqb lp rp np)) (join_spec keqb (concat lp) (concat rp)).
+Proof. exact @rdd_join_spec. Qed.
 Theorem C02_leftOuterJoin : forall K (keqb : K -> K -> bool), decides_eq keqb ->
-  forall V W (xs : list (K * V)) (ys : list (K * W)),
-  Permutation (left_outer_join keqb xs ys) (left_outer_spec keqb xs ys).
-Proof. exact @left_outer_join_perm. Qed.
+  forall V W (lp : list (list (K * V))) (rp : list (list (K * W))),
+  Permutation (concat (rdd_left_outer_join keqb lp rp)) (left_outer_spec keqb (concat lp) (concat rp)).
+Proof. exact @rdd_left_outer_join_spec. Qed.
 Theorem C02_rightOuterJoin : forall K (keqb : K -> K -> bool), decides_eq keqb ->
-  forall V W (xs : list (K * V)) (ys : list (K * W)),
-  Permutation (right_outer_join keqb xs ys) (right_outer_spec keqb xs ys).
-Proof. exact @right_outer_join_perm. Qed.
+  forall V W (lp : list (list (K * V))) (rp : list (list (K * W))),
+  Permutation (concat (rdd_right_outer_join keqb lp rp)) (right_outer_spec keqb (concat lp) (concat rp)).
+Proof. exact @rdd_right_outer_join_spec. Qed.
 Theorem C02_fullOuterJoin : forall K (keqb : K -> K -> bool), decides_eq keqb ->
-  forall V W (xs : list (K * V)) (ys : list (K * W)),
-  Permutation (full_outer_join keqb xs ys) (full_outer_spec keqb xs ys).
-Proof. exact @full_outer_join_perm. Qed.
+  forall V W (lp : list (list (K * V))) (rp : list (list (K * W))),
+  Permutation (concat (rdd_full_outer_join keqb lp rp)) (full_outer_spec keqb (concat lp) (concat rp)).
+Proof. exact @rdd_full_outer_join_spec. Qed.
 Theorem C02_leftSemiJoin : forall K (keqb : K -> K -> bool), decides_eq keqb ->
-  forall V W (xs : list (K * V)) (ys : list (K * W)),
-  Permutation (left_semi_join keqb xs ys) (matched keqb xs ys).
-Proof. exact @left_semi_join_eq. Qed.
+  forall V W (lp : list (list (K * V))) (rp : list (list (K * W))),
+  Permutation (concat (rdd_left_semi_join keqb lp rp)) (matched keqb (concat lp) (concat rp)).
+Proof. exact @rdd_left_semi_join_spec. Qed.
 Theorem C02_leftAntiJoin : forall K (keqb : K -> K -> bool), decides_eq keqb ->
-  forall V W (xs : list (K * V)) (ys : list (K * W)),
-  Permutation (left_anti_join keqb xs ys) (unmatched keqb xs ys).
-Proof. exact @left_anti_join_eq. Qed.
+  forall V W (lp : list (list (K * V))) (rp : list (list (K * W))),
+  Permutation (concat (rdd_left_anti_join keqb lp rp)) (unmatched keqb (concat lp) (concat rp)).
+Proof. exact @rdd_left_anti_join_spec. Qed.
 
-(* ---- cogroup: one entry per key of either side, both value lists in input order *)
-Theorem C02_cogroup_exact : forall K (keqb : K -> K -> bool), decides_eq keqb ->
-  forall V W (xs : list (K * V)) (ys : list (K * W)),
-  cogroup keqb xs ys = cogroup_spec keqb xs ys.
-Proof. exact @cogroup_closed. Qed.
-
-(* ---- subtractByKey: the pairs of self whose key does not occur in other *)
+(* subtractByKey: the pairs of self whose key does not occur in other; subtract: the elements of self that
+   are not == to an element of other, in order, partitions preserved *)
 Theorem C02_subtractByKey : forall K (keqb : K -> K -> bool), decides_eq keqb ->
-  forall V W (xs : list (K * V)) (ys : list (K * W)),
-  Permutation (subtract_by_key keqb xs ys) (unmatched keqb xs ys).
-Proof. exact @subtract_by_key_perm. Qed.
+  forall V W (lp : list (list (K * V))) (rp : list (list (K * W))),
+  Permutation (concat (rdd_subtract_by_key keqb lp rp)) (unmatched keqb (concat lp) (concat rp)).
+Proof. exact @rdd_subtract_by_key_spec. Qed.
+Theorem C02_subtract : forall A (aeqb : A -> A -> bool) (lp rp : list (list A)),
+  concat (rdd_subtract aeqb lp rp) = filter (fun e => negb (kmem aeqb e (concat rp))) (concat lp).
+Proof. exact @rdd_subtract_spec. Qed.
+Theorem C02_subtract_In : forall A (aeqb : A -> A -> bool), decides_eq aeqb ->
+  forall (parts : list (list A)) (ys : list A) e,
+  In e (concat (subtract aeqb parts ys)) <-> In e (concat parts) /\ ~ In e ys.
+Proof. exact @subtract_In. Qed.
 
-(* ---- non-vacuity and sanity: the doctest inputs and the duplicate-key join that used to collapse *)
-Example join_duplicates :
-  join Z.eqb [(1, 10); (1, 20)]%Z [(1, 30); (1, 40)]%Z = [(1, (10, 30)); (1, (10, 40)); (1, (20, 30)); (1, (20, 40))]%Z.
-Proof. vm_compute. reflexivity. Qed.
+(* distinct / intersection: no duplicates, and exactly the elements of the input(s) *)
+Theorem C02_distinct : forall A (aeqb : A -> A -> bool), decides_eq aeqb ->
+  forall (lp : list (list A)) np,
+  NoDup (concat (rdd_distinct aeqb lp np)) /\ forall x, In x (concat (rdd_distinct aeqb lp np)) <-> In x (concat lp).
+Proof. exact @rdd_distinct_spec. Qed.
+Theorem C02_intersection : forall A (aeqb : A -> A -> bool), decides_eq aeqb ->
+  forall (lp rp : list (list A)),
+  NoDup (concat (rdd_intersection aeqb lp rp))
+  /\ forall x, In x (concat (rdd_intersection aeqb lp rp)) <-> In x (concat lp) /\ In x (concat rp).
+Proof. exact @rdd_intersection_spec. Qed.
+
+(* cartesian: every combination once, in order; multiplicities multiply *)
+Theorem C02_cartesian : forall A B (lp : list (list A)) (rp : list (list B)),
+  concat (rdd_cartesian lp rp) = list_prod (concat lp) (concat rp).
+Proof. exact @rdd_cartesian_spec. Qed.
+Theorem C02_cartesian_multiplicity : forall A B (p : A -> bool) (q : B -> bool) (xs : list A) (ys : list B),
+  length (filter (fun ab => p (fst ab) && q (snd ab)) (cartesian xs ys))
+  = (length (filter p xs) * length (filter q ys))%nat.
+Proof. exact @cartesian_count. Qed.
+
+(* sortByKey(ascending): sorted by key in the requested direction, a permutation of the input, and stable --
+   for every total and transitive key order *)
+Theorem C02_sortByKey : forall K V (le : K -> K -> bool),
+  (forall a b, le a b = true \/ le b a = true) ->
+  (forall a b c, le a b = true -> le b c = true -> le a c = true) ->
+  forall asc (lp : list (list (K * V))) np,
+  let out := concat (rdd_sort_by_key le asc lp np) in
+  Sorted (key_le (dir_le le asc)) out /\ Permutation out (concat lp)
+  /\ forall k, filter (same_key le k) out = filter (same_key le k) (concat lp).
+Proof. exact @rdd_sort_by_key_spec. Qed.
+
+(* ================= the result does not depend on the partitioning of either input or on numPartitions ====== *)
+Theorem C02_parallelize_only_reslices : forall A (xs : list A) (num : option Z), concat (parallelize xs num) = xs.
+Proof. exact @parallelize_flat. Qed.
+Theorem C02_partition_independence : forall K V W (keqb : K -> K -> bool)
+  (lp lp' : list (list (K * V))) (rp rp' : list (list (K * W))) (np np' : option Z),
+  concat lp = concat lp' -> concat rp = concat rp' ->
+  concat (rdd_group_by_key keqb lp np) = concat (rdd_group_by_key keqb lp' np')
+  /\ (forall f, concat (rdd_reduce_by_key keqb f lp np) = concat (rdd_reduce_by_key keqb f lp' np'))
+  /\ concat (rdd_cogroup keqb lp rp) = concat (rdd_cogroup keqb lp' rp')
+  /\ concat (rdd_join keqb lp rp np) = concat (rdd_join keqb lp' rp' np')
+  /\ concat (rdd_left_outer_join keqb lp rp) = concat (rdd_left_outer_join keqb lp' rp')
+  /\ concat (rdd_right_outer_join keqb lp rp) = concat (rdd_right_outer_join keqb lp' rp')
+  /\ concat (rdd_full_outer_join keqb lp rp) = concat (rdd_full_outer_join keqb lp' rp')
+  /\ concat (rdd_left_semi_join keqb lp rp) = concat (rdd_left_semi_join keqb lp' rp')
+  /\ concat (rdd_left_anti_join keqb lp rp) = concat (rdd_left_anti_join keqb lp' rp')
+  /\ concat (rdd_subtract_by_key keqb lp rp) = concat (rdd_subtract_by_key keqb lp' rp')
+  /\ concat (rdd_cartesian lp rp) = concat (rdd_cartesian lp' rp')
+  /\ (forall le asc, concat (rdd_sort_by_key le asc lp np) = concat (rdd_sort_by_key le asc lp' np')).
+Proof. exact @partition_independence. Qed.
+Theorem C02_partition_independence_elements : forall A (aeqb : A -> A -> bool)
+  (lp lp' rp rp' : list (list A)) (np np' : option Z),
+  concat lp = concat lp' -> concat rp = concat rp' ->
+  concat (rdd_subtract aeqb lp rp) = concat (rdd_subtract aeqb lp' rp')
+  /\ concat (rdd_distinct aeqb lp np) = concat (rdd_distinct aeqb lp' np')
+  /\ concat (rdd_intersection aeqb lp rp) = concat (rdd_intersection aeqb lp' rp').
+Proof. exact @partition_independence_elements. Qed.
+Theorem C02_partition_independence_aggregate : forall K V A (keqb : K -> K -> bool), decides_eq keqb ->
+  forall (z : A) (s : A -> V -> A) (c : A -> A -> A) (lp lp' : list (list (K * V))),
+  agg_hom z s c -> concat lp = concat lp' ->
+  concat (rdd_aggregate_by_key keqb z s c lp) = concat (rdd_aggregate_by_key keqb z s c lp')
+  /\ count_by_key keqb lp = count_by_key keqb lp'.
+Proof. exact @partition_independence_aggregate. Qed.
+
+(* ================= the instance used by the correspondence run satisfies the premise ======================= *)
+Theorem C02_run_keys_decide_eq : decides_eq pv_eqb.
+Proof. exact pv_eqb_decides. Qed.
+
+(* ================= non-vacuity and sanity ================================================================== *)
 Example Zeqb_decides : decides_eq Z.eqb.
 Proof. exact Z.eqb_eq. Qed.
+Example Zleb_total_trans :
+  (forall a b, Z.leb a b = true \/ Z.leb b a = true) /\ (forall a b c, Z.leb a b = true -> Z.leb b c = true -> Z.leb a c = true).
+Proof.
+  split; [intros a b | intros a b c]; rewrite !Z.leb_le; [apply Z.le_ge_cases | apply Z.le_trans].
+Qed.
+(* a (zero, seqFunc, combFunc) that satisfies the contract: sum *)
+Example sum_is_hom : agg_hom (V := Z) 0%Z Z.add Z.add.
+Proof.
+  intros a b. rewrite fold_left_app. generalize (fold_left Z.add a 0%Z). intros x.
+  assert (G : forall l x y, (x + fold_left Z.add l y = fold_left Z.add l (x + y))%Z).
+  { induction l as [|v l IH]; intros x0 y; simpl; [reflexivity|]. rewrite IH, Z.add_assoc. reflexivity. }
+  rewrite G, Z.add_0_r. reflexivity.
+Qed.
+(* the duplicate-key join that the old dict()-based join collapsed to one pair, on two partitionings *)
+Example join_duplicates :
+  concat (rdd_join Z.eqb [[(1, 10)]; [(1, 20)]] [[(1, 30); (1, 40)]] (Some 5))%Z
+  = [(1, (10, 30)); (1, (10, 40)); (1, (20, 30)); (1, (20, 40))]%Z.
+Proof. vm_compute. reflexivity. Qed.
+(* doctests of rdd.py *)
 Example full_outer_doctest :
-  full_outer_join Z.eqb [(1, 0); (2, 1)]%Z [(2, 2); (3, 3)]%Z
+  concat (rdd_full_outer_join Z.eqb [[(1, 0); (2, 1)]] [[(2, 2)]; [(3, 3)]])%Z
   = [(1, (Some 0, None)); (2, (Some 1, Some 2)); (3, (None, Some 3))]%Z.
 Proof. vm_compute. reflexivity. Qed.
+Example subtract_by_key_doctest :
+  concat (rdd_subtract_by_key Z.eqb [[(1, 1); (2, 4)]; [(2, 5); (1, 2)]] [[(1, 3); (3, 0)]])%Z = [(2, 4); (2, 5)]%Z.
+Proof. vm_compute. reflexivity. Qed.
+Example aggregate_doctest :
+  concat (rdd_aggregate_by_key Z.eqb 0 Z.add Z.add [[(1, 1); (2, 2)]; [(1, 3); (3, 4)]])%Z = [(1, 4); (2, 2); (3, 4)]%Z.
+Proof. vm_compute. reflexivity. Qed.
+(* a zero that is not neutral breaks the contract, and the result then depends on the partitioning (as in Spark) *)
+Example aggregate_non_neutral_zero_depends_on_partitioning :
+  aggregate_by_key Z.eqb 1 Z.add Z.add [[(1, 1); (1, 1)]]%Z <> aggregate_by_key Z.eqb 1 Z.add Z.add [[(1, 1)]; [(1, 1)]]%Z.
+Proof. vm_compute. discriminate. Qed.
